@@ -68,6 +68,7 @@ def _dense(c):
 
 # ----------------------------------------------------------------------------- generator
 SMALL = st.integers(-3, 3)
+MAX_SIZE = 192    # RSOME's object-array index bookkeeping is slow; size is bounded, rank is not
 
 
 @st.composite
@@ -365,8 +366,8 @@ def case_strategy(draw, max_ops=6):
             elif op == 'trace':
                 node = ['trace', node]
                 shape = []
-            if any(d == 0 for d in shape):
-                node, shape, typ = saved      # empty arrays are not generated
+            if any(d == 0 for d in shape) or int(np.prod(shape)) > MAX_SIZE:
+                node, shape, typ = saved      # empty / very large arrays are not generated
                 continue
             ops_used.append(op)
         except (ValueError, IndexError):
@@ -457,7 +458,16 @@ def ldr_masks(case, nrand):
             masks[i] = np.ones((size, nrand), dtype=bool)
         else:
             rs = np.random.RandomState(v.get('mask_seed', 0))
-            masks[i] = rs.rand(size, nrand) < 0.5
+            if size * nrand <= 240:
+                masks[i] = rs.rand(size, nrand) < 0.5
+            else:       # big blocks: a few (entry, component) pairs only, to keep adapt() calls few
+                mk = np.zeros((size, nrand), dtype=bool)
+                rr = rs.choice(size, size=min(size, 4), replace=False)
+                cc = rs.choice(nrand, size=min(nrand, 4), replace=False)
+                for r in rr:
+                    for c in cc:
+                        mk[r, c] = rs.rand() < 0.6
+                masks[i] = mk
     return masks
 
 
